@@ -28,6 +28,10 @@ type schemaValidationSettings struct {
 	defaultsSet         func()
 
 	customizeMessageError func(err *SchemaError) string
+
+	// applying holds the schemas being applied to the value at hand: not, allOf, anyOf and oneOf
+	// apply their sub-schemas to the same value, so meeting one of them again is a cycle.
+	applying map[*Schema]struct{}
 }
 
 // FailFast returns schema validation errors quicker.
